@@ -89,3 +89,9 @@ Definition ok_chain (chain : list fmt) (cs : list cue) (pass1 pass2 : result (li
   | Ok o1, Ok o2 => cues_close (coarsest chain) (expected chain cs) o1 && cues_eqb o1 o2
   | _, _ => false
   end.
+
+(* several languages: every language keeps its name, its place and its own closed form *)
+Definition expected_set (chain : list fmt) (cs : capset) : capset :=
+  map (fun lc => (fst lc, expected chain (snd lc))) cs.
+Definition set_dom (chain : list fmt) (cs : capset) : bool :=
+  forallb carries_languages chain && forallb (fun lc => chain_dom chain (snd lc)) cs.
